@@ -310,11 +310,10 @@ impl<R: Read + io::Seek> ZipArchive<R> {
         // comment length. Therefore:
         // (The end record need not be the last thing in the file: trailing bytes are tolerated,
         // so the locator is looked for relative to the record that was found, not to the end.)
-        let zip64locator = if cde_start_pos >= 20
-            && reader
-                .seek(io::SeekFrom::Start(cde_start_pos - 20))
-                .is_ok()
-        {
+        let zip64locator = if cde_start_pos >= 20 {
+            // (An absolute position inside the file: a failure here is a real I/O error, and
+            // carrying on would read a ZIP64 archive as a classic one.)
+            reader.seek(io::SeekFrom::Start(cde_start_pos - 20))?;
             match spec::Zip64CentralDirectoryEndLocator::parse(reader) {
                 Ok(loc) => Some(loc),
                 Err(ZipError::InvalidArchive(_)) => {
